@@ -1018,8 +1018,8 @@ NEST_KINDS = ['float', 'free', 'fixed', 'expr']
 
 def nest_listings(nests):
     """Every way of writing down one nest structure other than the canonical one: all permutations of the tuple
-    of nests x all permutations of the member list of each nest (canonical = blocks by smallest member, members
-    ascending in choice-set position, as produced by set_partitions)."""
+    of nests x all permutations of the member list of each nest (canonical = the listing produced by set_partitions:
+    members ascending in choice-set position)."""
     canonical = [list(m) for m in nests]
     out = []
     for order in itertools.permutations(range(len(nests))):
@@ -1157,7 +1157,9 @@ def check_nest(cfg, rec: Rec, a=None):
         for j in members:
             nest_of[labels[j]] = i
     listing = nest_listing_class(nests_pos)
-    listing_tag = '' if listing == 'choice-set-order' else f',listing={listing}'
+    # only a member list in another order than the choice set is named in the finding key (the order of the tuple
+    # of nests already varies in the canonical structures, whose keys stay as they were)
+    listing_tag = ',listing=members-reordered' if listing == 'members-reordered' else ''
     ok_labels = sorted(map(str, corr.index)) == sorted(name_of.values()) and list(corr.index) == list(corr.columns)
     rec.case(('nest-labels', str(cfg)), list(map(str, corr.index)), outcome='nest:labels')
     if not ok_labels:
